@@ -25,6 +25,29 @@ def observe_impl(ops, queries, keyform=list):
     t = TrieDict()
     for k, v in ops:
         t[keyform(k)] = v
+    return observe(t, queries, keyform)
+
+
+def first_bad_prefix(ops, queries, keyform=list):
+    """The same history on ONE object observed before the first and after every assignment."""
+    from ural.classes import TrieDict
+
+    t = TrieDict()
+    for i in range(len(ops) + 1):
+        if i:
+            k, v = ops[i - 1]
+            t[keyform(k)] = v
+        try:
+            ci = canon_obs(observe(t, queries, keyform))
+        except Exception as e:  # noqa
+            ci = dict(len=Exc(type(e).__name__))
+        cs = canon_obs(spec_obs(ops[:i], queries))
+        if ci != cs:
+            return i, ci, cs
+    return None
+
+
+def observe(t, queries, keyform=list):
     sentinel = object()
     gets = []
     lm = []
@@ -172,6 +195,12 @@ def run(res, tier, rng):
             res.violation("property", "TrieDict is not the dictionary of its history on: %s" % ",".join(bad),
                           input=dict(history=h, queries=qs, keyform=form),
                           impl={f: ci.get(f) for f in bad}, expected={f: cs[f] for f in bad})
+        elif len(h) >= 2 and first_bad_prefix(h, qs, forms[form]) is not None:
+            i, ci_i, cs_i = first_bad_prefix(h, qs, forms[form])
+            bad = [f for f in cs_i if ci_i.get(f) != cs_i[f]]
+            res.violation("property", "TrieDict observed between its assignments is not the dictionary of the assignments so far on: %s" % ",".join(bad),
+                          input=dict(history=h[:i], queries=qs, keyform=form, observed_after_each_assignment=True),
+                          impl={f: ci_i.get(f) for f in bad}, expected={f: cs_i[f] for f in bad})
         elif cm != ci:
             bad = [f for f in cm if ci.get(f) != cm[f]]
             res.violation("correspondence", "model and implementation differ on: %s" % ",".join(bad),
@@ -184,7 +213,7 @@ def run(res, tier, rng):
     res.rule = ("exhaustive: every assignment history of length <= %d over keys of length 0..3 on {a,b} x values {None,1} "
                 "(length %d restricted to keys of length <= 2), all query methods on all 31 keys of length 0..4; "
                 "then %d seeded random histories (length 1..12, wider token alphabet incl. empty and multi-char tokens, "
-                "str/list/tuple keys). Non-trivial = distinct history with >= 2 assignments or using the empty key."
+                "str/list/tuple keys); every history replayed on one object observed before the first and after every assignment. Non-trivial = distinct history with >= 2 assignments or using the empty key."
                 % (depth - 1 if tier == "quick" else 3, depth, nrand))
     res.extra["exhaustive_histories"] = n_exh
     res.extra["random_histories"] = nrand
